@@ -33,15 +33,19 @@ def Converted.entries (c : Converted) : List (Id × Bytes) := c.vocab ++ c.speci
 def keptOrdinary (c : Converted) (s : SrcToken) : Bool :=
   s.unused || c.entries.contains (s.id, s.bytes) || c.entries.any fun e => e.2 == s.bytes && e.1 != s.id
 
-/-- A special source token is a special of the result with its bytes and kind, under its id unless that id
-    belongs to a different vocabulary entry (then it is renumbered). -/
+/-- A special source token is a special of the result with its id and kind ("keeps special/added tokens
+    as specials with their ids and kinds"; the text of the unknown token may be replaced by the surface
+    form the source library prints for it), or — the only permitted id change — with its bytes and kind
+    under a new id when its id belongs to a different vocabulary entry. -/
 def keptSpecial (c : Converted) (s : SrcToken) (k : SpecialKind) : Bool :=
-  c.specials.any fun sp => sp.bytes == s.bytes && sp.kind == k &&
-    (sp.id == s.id || c.vocab.any fun v => v.1 == s.id && v.2 != s.bytes)
+  c.specials.any fun sp => sp.kind == k &&
+    ((sp.id == s.id && (sp.bytes == s.bytes || k == .unknown)) ||
+     (sp.bytes == s.bytes && c.vocab.any fun v => v.1 == s.id && v.2 != s.bytes))
 
-/-- Nothing is invented: every vocabulary entry of the result is a source token. -/
+/-- Nothing is invented: every vocabulary entry of the result is a source token (for a source token
+    about which nothing is claimed — unused, malformed — only the id is compared). -/
 def fromSource (src : List SrcToken) (e : Id × Bytes) : Bool :=
-  src.any fun s => s.id == e.1 && s.bytes == e.2
+  src.any fun s => s.id == e.1 && (s.bytes == e.2 || s.unused)
 
 /-- Byte-pair vocabularies are ordered by the source's merge priority. -/
 def prioOf (src : List SrcToken) (e : Id × Bytes) : Option Nat :=
@@ -71,7 +75,9 @@ structure Keeps (src : List SrcToken) (c : Converted) : Prop where
   ordinary : ∀ s ∈ src, s.special = none → s.unused = false →
     (s.id, s.bytes) ∈ c.entries ∨ ∃ e ∈ c.entries, e.2 = s.bytes ∧ e.1 ≠ s.id
   special : ∀ s ∈ src, ∀ k, s.special = some k →
-    ∃ sp ∈ c.specials, sp.bytes = s.bytes ∧ sp.kind = k ∧ (sp.id = s.id ∨ ∃ v ∈ c.vocab, v.1 = s.id ∧ v.2 ≠ s.bytes)
-  noInvention : ∀ e ∈ c.vocab, ∃ s ∈ src, s.id = e.1 ∧ s.bytes = e.2
+    ∃ sp ∈ c.specials, sp.kind = k ∧
+      ((sp.id = s.id ∧ (sp.bytes = s.bytes ∨ k = .unknown)) ∨
+       (sp.bytes = s.bytes ∧ ∃ v ∈ c.vocab, v.1 = s.id ∧ v.2 ≠ s.bytes))
+  noInvention : ∀ e ∈ c.vocab, ∃ s ∈ src, s.id = e.1 ∧ (s.bytes = e.2 ∨ s.unused = true)
 
 end Kitoken.Spec
